@@ -93,5 +93,14 @@ META = {
                 "domain observes after every step.",
         "note": "Sharing bugs that need a memory-level (not API-level) interleaving are only visible as sanitizer reports in the fuzz flavour.",
     },
+    "C12": {
+        "technique": "model-based testing against brute-force integer point sets (exactness of bottom/entailment/bounds/join/meet/forget) + base-vs-lifting differential; choice-tape PBT (rapidcheck)",
+        "text": "Sampled search with an exact oracle: every value of interval/zones/octagons built by in-language histories is compared with the exact set of integer "
+                "points it should describe (box of at most 9^4 points): bottom iff empty, entailment of every constraint of the language iff implied, variable "
+                "bounds exact, join = best abstraction of the union, meet/forget exact. Liftings (flat boolean, array smashing, array adaptive, region, reduced "
+                "product) are run side by side with their base domain on straight-line numerical code and must never report looser bounds.",
+        "note": "At most 4 variables and |x|<=4 (plus per-variable offsets for large constants); defects that need more variables are only reachable by the "
+                "soundness harnesses (C03). Two recorded findings (meet of split_oct, meet of split_dbm with zones.close_bounds_inline) are excluded by "
+                "construction, see known_findings.json.",
+    },
 }
-
